@@ -5,7 +5,7 @@
 (* total: a failed predicate is added to `viol` and the rest of that       *)
 (* behaviour is skipped up to the next `reset` event.                      *)
 (***************************************************************************)
-EXTENDS Yata, Json, IOUtils
+EXTENDS Rich, Json, IOUtils
 
 Rec == ndJsonDeserialize(IOEnv.TRACE)
 
@@ -17,7 +17,7 @@ VARIABLES l,       \* next trace line
           U,       \* updates emitted by local operations, in emission order: [ins, del]
           SEEN,    \* element -> elements of its container its creator had integrated when creating it
           S,       \* replica id -> replica record
-          cfg,     \* replica id -> [gc : BOOLEAN]
+          cfg,     \* replica id -> [gc : BOOLEAN, cf : BOOLEAN] (garbage collection, automatic formatting clean-up)
           failed,  \* current behaviour already has a violation
           viol,    \* set of <<bid, predicate, line>>
           drift,   \* set of <<bid, what, line>>: implementation-level prediction differs
@@ -31,7 +31,9 @@ EmptyFn == [x \in {} |-> 0]
 ---------------------------------------------------------------------------
 (* (w8 is recorded by the Yata executor; traces of other recorders describe no text widths) *)
 UnitRec(u) == [o |-> u.o, ro |-> u.ro, cont |-> u.cont, sub |-> u.sub, par |-> u.par,
-               kind |-> u.kind, q |-> u.q, w8 |-> IF "w8" \in DOMAIN u THEN u.w8 ELSE 1]
+               kind |-> u.kind, q |-> u.q, w8 |-> IF "w8" \in DOMAIN u THEN u.w8 ELSE 1,
+               \* formatting marks: attribute key / JSON text of the value (absent in traces of older producers)
+               fk |-> IF "fk" \in DOMAIN u THEN u.fk ELSE "", fv |-> IF "fv" \in DOMAIN u THEN u.fv ELSE ""]
 Struct(e) == <<e.o, e.ro, e.cont, e.sub, e.par>>
 RealUnits(us) == {i \in 1..Len(us) : us[i].kind # "gc"}
 FreshIdx(us) == {i \in RealUnits(us) : us[i].id \notin DOMAIN E}
@@ -60,6 +62,18 @@ PubAgrees(E2, R, o) ==
   /\ \A c \in DOMAIN o.pub : o.pub[c] = Visible(E2, R, c)
   /\ \A c \in DOMAIN R.lst : ContReachable(E2, R, c) /\ Visible(E2, R, c) # <<>> => c \in DOMAIN o.pub
   /\ o.c17 = "ok"
+(* rich text: the public diff() -- chunks [[unit ids], [[key, value], ...]] mapped back to unit ids through the   *)
+(* tags -- is the Render of the recorded structure (and get_string, compared with the chunks by the harness   *)
+(* flag c17, its projection)                                                                                  *)
+RECURSIVE FlatChunks(_, _)
+FlatChunks(ch, i) ==
+  IF i > Len(ch) THEN <<>>
+  ELSE [j \in 1..Len(ch[i][1]) |-> <<ch[i][1][j], Range(ch[i][2])>>] \o FlatChunks(ch, i + 1)
+DiffAgrees(E2, R, o) ==
+  \A c \in DOMAIN o.rich :
+     /\ \A i \in 1..Len(o.rich[c]) : Len(o.rich[c][i][1]) > 0
+     /\ FlatChunks(o.rich[c], 1) = RenderOf(E2, R, c)
+     /\ c \in DOMAIN o.pub /\ [j \in 1..Len(RenderOf(E2, R, c)) |-> RenderOf(E2, R, c)[j][1]] = o.pub[c]
 SvAgrees(R, o) == Ids(o.sv) \ {<<x[1], 0>> : x \in Ids(o.sv)} = SVOf(Have(R))
 
 (* implementation-level prediction: YATA placement of the newly listed elements *)
@@ -87,6 +101,8 @@ StepChecks(E2, XD2, SN, r, R, R2, o, forced) ==
      <<"C15_OnlyDeadCollected", C15_OnlyDeadCollected(E2, R, R2)>>,
      <<"C15_GcOffKeepsAll", cfg[r].gc \/ forced \/ (R2.gone \ R.gone) \subseteq (R2.dlv \ R.dlv) \cup R.pend>>,
      <<"C17_PubAgrees", ("nopub" \in DOMAIN o) \/ PubAgrees(E2, R2, o)>>,
+     <<"C17_DiffRender", ("rich" \notin DOMAIN o) \/ DiffAgrees(E2, R2, o)>>,
+     <<"C01_RenderConverge", \A b \in DOMAIN S \ {r} : C01_RenderConverge(E2, XD2, R2, S[b])>>,
      <<"C06_SvExact", SvAgrees(R2, o)>>,
      <<"C01_Converge", \A b \in DOMAIN S \ {r} : C01_Converge(E2, XD2, R2, S[b])>>,
      <<"C04_PairOrder", \A b \in DOMAIN S \ {r} : C04_PairOrder(R2, S[b])>> >>
@@ -99,6 +115,18 @@ FolChecks(E2, R2, o, f) ==
           /\ (R2.dead \cup R2.gone) = (F.dead \cup F.gone)
           /\ f.pub = o.pub
           /\ Ids(f.sv) = Ids(o.sv)>> >>
+
+(* marks a replica holds as tombstones only because of somebody's clean-up: clean-up deletions are kept in XD, the *)
+(* deletions of user-level calls are the delete sets of the local updates U                                        *)
+UserDel == UNION {U[i].del : i \in 1..Len(U)}
+CleanedOnly(E2, XD2, udel) == {x \in XD2 : x \in DOMAIN E2 /\ IsMark(E2, x)} \ udel
+(* the stronger reading of "clean-up is invisible" (see Rich.tla) is reported as drift *)
+StrongDrift(E2, XD2, udel, r, R2) ==
+  LET cla == CleanedOnly(E2, XD2, udel)
+  IN IF cla = {} THEN {}
+     ELSE (IF ~StrongCleanupInvisible(E2, R2, cla) THEN {"cleanup-visible"} ELSE {})
+          \cup (IF \E b \in DOMAIN S \ {r} : ~StrongRenderConverge(E2, XD2 \ cla, R2, S[b])
+                THEN {"render-depends-on-cleanup"} ELSE {})
 
 Failing(chk) == {chk[i][1] : i \in {j \in 1..Len(chk) : ~chk[j][2]}}
 
@@ -114,7 +142,8 @@ Reset ==
   /\ E' = EmptyFn /\ XD' = {} /\ U' = <<>> /\ SEEN' = EmptyFn
   /\ S' = [r \in {Ev.cfg.replicas[i].id : i \in 1..Len(Ev.cfg.replicas)} |-> EmptyReplica]
   /\ cfg' = [r \in {Ev.cfg.replicas[i].id : i \in 1..Len(Ev.cfg.replicas)} |->
-               [gc |-> Ev.cfg.replicas[CHOOSE i \in 1..Len(Ev.cfg.replicas) : Ev.cfg.replicas[i].id = r].gc]]
+               LET rep == Ev.cfg.replicas[CHOOSE i \in 1..Len(Ev.cfg.replicas) : Ev.cfg.replicas[i].id = r]
+               IN [gc |-> rep.gc, cf |-> IF "cf" \in DOMAIN rep THEN rep.cf ELSE FALSE]]
   /\ failed' = FALSE
   /\ cnt' = [cnt EXCEPT !.beh = @ + 1]
   /\ UNCHANGED <<viol, drift>>
@@ -141,7 +170,7 @@ Local ==
          visB == Visible(E, R, Ev.cont)
          visA == IF ok THEN Visible(E2, R2, Ev.cont) ELSE <<>>
          seqOk ==
-           CASE call.a \in {"ins", "emb"} ->
+           CASE call.a \in {"ins", "emb", "insa"} ->
                   /\ Len(visA) >= Len(visB)
                   /\ SubSeq(visA, 1, call.i) = SubSeq(visB, 1, call.i)
                   /\ SubSeq(visA, call.i + 1 + (Len(visA) - Len(visB)), Len(visA)) = SubSeq(visB, call.i + 1, Len(visB))
@@ -153,7 +182,20 @@ Local ==
              [] call.a = "rem" -> visA = <<>>
              [] call.a = "fmt" -> visA = visB
              [] OTHER -> TRUE
-         XD2 == IF call.a \in {"del", "rem"} THEN XD \cup (Range(visB) \ Range(visA)) ELSE XD
+         XD2 == IF call.a \in {"del", "rem"} THEN XD \cup (Range(visB) \ Range(visA))
+                \* marks removed by a format call are not implied by anything the receivers integrate: they are input
+                ELSE IF call.a = "fmt" THEN XD \cup Ids(Ev.upd.del)
+                ELSE XD
+         \* sequential meaning of the rich-text calls on the rendered attributes (only where marks are around)
+         rich == ok /\ Ev.cont \in DOMAIN R2.lst /\ ~Keyed(E2, R2.lst[Ev.cont]) /\ Marked(E2, R2.lst[Ev.cont])
+         RB == RenderOf(E, R, Ev.cont)
+         RA == RenderOf(E2, R2, Ev.cont)
+         richOk ==
+           CASE call.a \in {"ins", "emb"} -> C03_RichInsert(RB, RA, call.i, newIds)
+             [] call.a = "insa" -> C03_RichInsertWith(RB, RA, call.i, newIds, call.key, call.v)
+             [] call.a = "del" -> C03_RichDelete(RB, RA, call.i, call.n)
+             [] call.a = "fmt" -> C03_RichFormat(RB, RA, call.i, call.n, call.key, call.v)
+             [] OTHER -> TRUE
          fresh == {us[i].id : i \in FreshIdx(us)}
          SEEN2 == [x \in DOMAIN SEEN \cup fresh |->
                      IF x \in DOMAIN SEEN THEN SEEN[x]
@@ -165,10 +207,12 @@ Local ==
                            <<"C04_FreshIds", \A i \in RealUnits(us) : us[i].id \notin DOMAIN E /\ us[i].id[1] = r>>,
                            <<"C04_AllIntegrated", newIds \subseteq Have(R2) /\ R2.pend = R.pend>>,
                            <<"C03_Sequential", Ev.outcome # "ok" \/ seqOk>>,
+                           <<"C03_RichSequential", Ev.outcome # "ok" \/ ~rich \/ richOk>>,
                            <<"C07_EmitIffChanged", Ev.nev = (IF changed THEN <<1, 1>> ELSE <<0, 0>>)>> >>
                      \o (IF Ev.hasfol THEN FolChecks(E2, R2, Ev.obs, Ev.fol.v1) \o FolChecks(E2, R2, Ev.obs, Ev.fol.v2) ELSE <<>>)
          dr == (IF ok /\ ~PlacementPredicted(E2, R, R2) THEN {"placement"} ELSE {})
                \cup (IF ok /\ ~StashTight(R2) THEN {"stash-not-tight"} ELSE {})
+               \cup (IF ok THEN StrongDrift(E2, XD2, UserDel \cup Ids(Ev.upd.del), r, R2) ELSE {})
      IN /\ Record(Failing(chk), dr)
         /\ E' = E2 /\ XD' = XD2 /\ SEEN' = SEEN2
         /\ U' = IF call.a = "gcf" THEN U ELSE Append(U, [ins |-> InsIds(us), del |-> Ids(Ev.upd.del)])
@@ -181,12 +225,31 @@ ApplyTo(r, payload, emit, outcome, wire, o, nev, hasfol, fol, extra(_, _, _)) ==
   LET us == payload.ins
       E2 == Extend(us \o emit.ins)
       R  == S[r]
-      R2 == ObsRep(o, R.dlv \cup InsIds(us), R.ddel \cup Ids(payload.del) \cup ImplicitDel(us))
+      ddel2 == R.ddel \cup Ids(payload.del) \cup ImplicitDel(us)
+      \* automatic formatting clean-up: the marks this transaction deleted (they are in its update event) without any
+      \* delivered deletion naming them.  They are operations of the cleaning replica: explicit deletions (XD) that it
+      \* has delivered to itself; whoever receives its state receives them in the delete set.  A replica with the
+      \* clean-up switched off has none (its tombstones stay exactly the expected ones, C05_DeadExact).
+      \* (marks that are tombstones anyway - inside a removed subtree, or collected together with their parent - are not clean-up)
+      cand == IF cfg[r].cf THEN {x \in Ids(emit.del) : x \in DOMAIN E2 /\ IsMark(E2, x)} \ (ddel2 \cup Ids(o.gone)) ELSE {}
+      CL == IF cand = {} \/ ~WellFormed(E2, o) THEN cand ELSE cand \ ExpectedDead(E2, o.lst, Ids(o.gone), ddel2)
+      XD2 == XD \cup CL
+      R2 == ObsRep(o, R.dlv \cup InsIds(us), ddel2 \cup CL)
+      \* implementation-level prediction (drift only): the transcription of TransactionMut::cleanup_fmt in Rich.tla, run on
+      \* the recorded lists with the tombstones / insertions / deletions the transaction had made before the clean-up
+      \* (the units it integrated are Have(R2) \ Have(R): with gaps the update event re-emits blocks integrated earlier;
+      \* a mark that arrives as collected content - the sender had garbage-collected its tombstone - is a plain deleted
+      \* unit for cleanup_fmt, not a deleted mark)
+      asDel == {us[i].id : i \in {j \in 1..Len(us) : us[j].kind = "deleted"}}
+      E3 == IF asDel \cap DOMAIN E2 = {} THEN E2
+            ELSE [x \in DOMAIN E2 |-> IF x \in asDel THEN [E2[x] EXCEPT !.kind = "deleted"] ELSE E2[x]]
+      PredCL == UNION {CleanupFmt(E3, R2.lst[c], R2.dead \ CL, Have(R2) \ Have(R), Ids(emit.del) \ CL) : c \in MarkedConts(E2, R2)}
       ok == WellFormed(E2, o)
       changed == Have(R2) # Have(R) \/ (R2.dead \cup R2.gone) # (R.dead \cup R.gone)
       chk == IF ~ok THEN << <<"C04_Placed", FALSE>> >>
-             ELSE StepChecks(E2, XD, SEEN, r, R, R2, o, FALSE)
+             ELSE StepChecks(E2, XD2, SEEN, r, R, R2, o, FALSE)
                   \o << <<"C01_NoFailure", outcome = "ok">>,
+                        <<"C01_CleanupInvisible", C01_CleanupInvisible(E2, R2, CL)>>,
                         \* a unit that arrived with its structure may be turned into a collected range only once its
                         \* dependencies are integrated (otherwise it was dropped instead of being kept)
                         <<"C02_KeptUntilDeps",
@@ -198,8 +261,10 @@ ApplyTo(r, payload, emit, outcome, wire, o, nev, hasfol, fol, extra(_, _, _)) ==
                   \o extra(E2, R, R2)
       dr == (IF ok /\ ~PlacementPredicted(E2, R, R2) THEN {"placement"} ELSE {})
             \cup (IF ok /\ ~StashTight(R2) THEN {"stash-not-tight"} ELSE {})
+            \cup (IF ok THEN StrongDrift(E2, XD2, UserDel, r, R2) ELSE {})
+            \cup (IF ok /\ cfg[r].cf /\ PredCL # CL THEN {"cleanup-set"} ELSE {})
   IN /\ Record(Failing(chk), dr)
-     /\ E' = E2 /\ XD' = XD /\ U' = U /\ SEEN' = SEEN
+     /\ E' = E2 /\ XD' = XD2 /\ U' = U /\ SEEN' = SEEN
      /\ S' = [S EXCEPT ![r] = R2]
      /\ cnt' = [cnt EXCEPT !.ev = @ + 1, !.checks = @ + Len(chk)]
 
@@ -287,12 +352,20 @@ Crash ==
   /\ Record({"C01_NoFailure"}, {})
   /\ UNCHANGED <<ln0, bid, E, XD, U, SEEN, S, cfg, cnt>>
 
+(* a rich-text schedule generated from the abstract lists (which hold no marks) that the real document cannot execute: *)
+(* marks take part in the placement of concurrent insertions, so an index of the model may not exist (see yata.rs).      *)
+(* Nothing is judged; the behaviour is counted as drift.                                                                *)
+Inexec ==
+  /\ Ev.k = "inexec" /\ ~failed
+  /\ Record({}, {"inexecutable-schedule"})
+  /\ UNCHANGED <<ln0, bid, E, XD, U, SEEN, S, cfg, cnt>>
+
 TInit == /\ l = 1 /\ ln0 = 0 /\ bid = "" /\ E = EmptyFn /\ XD = {} /\ U = <<>> /\ SEEN = EmptyFn /\ S = EmptyFn /\ cfg = EmptyFn /\ failed = FALSE
          /\ viol = {} /\ drift = {} /\ cnt = [beh |-> 0, ev |-> 0, checks |-> 0]
 
 TNext == /\ l <= Len(Rec)
          /\ l' = l + 1
-         /\ (Reset \/ Skip \/ Local \/ Deliver \/ SvOfUpdate \/ Sync \/ Txn \/ Nondet \/ Crash)
+         /\ (Reset \/ Skip \/ Local \/ Deliver \/ SvOfUpdate \/ Sync \/ Txn \/ Nondet \/ Crash \/ Inexec)
 
 TSpec == TInit /\ [][TNext]_vars
 
